@@ -169,3 +169,56 @@ def shape3d_defined(mask: np.ndarray, spacing) -> bool:
     if not mask.any() or mask.all():
         return False  # marching cubes needs the 0.5 level inside the data range
     return inertia_axes_3d(mask, spacing) is not None
+
+
+def axes_2d(mask: np.ndarray, spacing) -> tuple[float, float]:
+    """Major/minor axis length of the ellipse with the same normalised second central
+    moments (4*sqrt(eigenvalue of the coordinate covariance))."""
+    sp = (1.0, 1.0) if spacing is None else tuple(float(x) for x in spacing)
+    idx = np.nonzero(mask)
+    c = [(a - a.mean()) * s for a, s in zip(idx, sp)]
+    n = len(idx[0])
+    cov = np.array([[np.sum(c[0] * c[0]), np.sum(c[0] * c[1])],
+                    [np.sum(c[0] * c[1]), np.sum(c[1] * c[1])]]) / n
+    lo, hi = np.linalg.eigvalsh(cov)
+    return float(4 * np.sqrt(max(hi, 0.0))), float(4 * np.sqrt(max(lo, 0.0)))
+
+
+def perimeter_2d(mask: np.ndarray, spacing) -> float:
+    from skimage.measure import perimeter
+
+    s = 1.0 if spacing is None else float(spacing[0])
+    return float(perimeter(mask, 4)) * s
+
+
+def surface_3d(mask: np.ndarray, spacing) -> float:
+    from skimage.measure import marching_cubes, mesh_surface_area
+
+    sp = (1.0, 1.0, 1.0) if spacing is None else tuple(float(x) for x in spacing)
+    verts, faces, _, _ = marching_cubes(mask, level=0.5, spacing=sp)
+    return float(mesh_surface_area(verts, faces))
+
+
+def shape_reference(mask: np.ndarray, spacing, key: str):
+    """Reference value of a regionprops-derived feature for one mask."""
+    nd = mask.ndim
+    if key == "area":
+        return mask_area(mask, spacing)
+    if key == "pos":
+        return mask_centroid(mask, spacing)
+    if key == "perimeter":
+        return perimeter_2d(mask, spacing) if nd == 2 else surface_3d(mask, spacing)
+    if key == "circularity":
+        if nd == 2:
+            p = perimeter_2d(mask, spacing)
+            a = mask_area(mask, spacing)
+            return float("inf") if p == 0 else 4 * np.pi * a / p**2
+        vol = mask_area(mask, spacing)
+        r = (3.0 / 4.0 / np.pi * vol) ** (1.0 / 3.0)
+        return 4 * np.pi * r**2 / surface_3d(mask, spacing)
+    if key == "ellipse_axis_radii":
+        if nd == 2:
+            return list(axes_2d(mask, spacing))
+        ax = inertia_axes_3d(mask, spacing)
+        return None if ax is None else list(ax)
+    raise KeyError(key)
